@@ -87,15 +87,18 @@ Qed.
 (* ---------- the tables ---------- *)
 (* P = what is known about every literal that labels a leaf (non-zero, within the feature range);
    literals_nx is exactly the set of literal leaves: one leaf per literal *)
-Record core_ok (P : Z -> Prop) (s : lstate) : Prop := {
+(* st = true: additionally only and / or nodes have outgoing edges (needs a file without edges out of
+   t / f nodes; not needed for the semantics theorem) *)
+Record core_ok (P : Z -> Prop) (st : bool) (s : lstate) : Prop := {
   co_inv : Inv (ls_g s);
   co_lits : forall l z, lookupZ (ls_lits s) l = Some z -> sg_label (ls_g s) z = Some (GLit l);
   co_pos : forall z l, sg_label (ls_g s) z = Some (GLit l) -> P l;
-  co_inj : forall z l, sg_label (ls_g s) z = Some (GLit l) -> lookupZ (ls_lits s) l = Some z
+  co_inj : forall z l, sg_label (ls_g s) z = Some (GLit l) -> lookupZ (ls_lits s) l = Some z;
+  co_src : st = true -> srcs_ok (ls_g s)
 }.
 Definition tris_ok (s : lstate) : Prop :=
   forall f o, lookup_nat (ls_tri s) f = Some o -> tri_node (ls_g s) f o.
-Definition tables_ok (P : Z -> Prop) (s : lstate) : Prop := core_ok P s /\ tris_ok s.
+Definition tables_ok (P : Z -> Prop) (st : bool) (s : lstate) : Prop := core_ok P st s /\ tris_ok s.
 
 Lemma lookupZ_cons m k v k' : lookupZ ((k, v) :: m) k' = if Z.eqb k k' then Some v else lookupZ m k'.
 Proof. reflexivity. Qed.
@@ -122,14 +125,14 @@ Proof. lia. Qed.
 
 Section Tables.
 Variable rc : bool.
-Context {P : Z -> Prop}.
+Context {P : Z -> Prop} {st : bool}.
 Definition PF (f : nat) : Prop := P (Z.of_nat f) /\ P (- Z.of_nat f)%Z.
 
-Lemma get_lit_core l s z s' D : core_ok P s -> P l -> get_lit rc l s = (z, s') ->
-  core_ok P s' /\ ext (ls_g s) (ls_g s') D /\ sg_label (ls_g s') z = Some (GLit l) /\
+Lemma get_lit_core l s z s' D : core_ok P st s -> P l -> get_lit rc l s = (z, s') ->
+  core_ok P st s' /\ ext (ls_g s) (ls_g s') D /\ sg_label (ls_g s') z = Some (GLit l) /\
   ls_tri s' = ls_tri s.
 Proof.
-  intros [HI Hl Hp Hj] Hl0 H. unfold get_lit in H.
+  intros [HI Hl Hp Hj Hs] Hl0 H. unfold get_lit in H.
   destruct (lookupZ (ls_lits s) l) as [x|] eqn:E.
   - injection H as <- <-. split; [now constructor|]. split; [apply ext_refl|]. split; [now apply Hl|reflexivity].
   - destruct (add_node rc (GLit l) (ls_g s)) as [x g'] eqn:Ha. injection H as <- <-. cbn [ls_g ls_tri ls_lits].
@@ -147,13 +150,15 @@ Proof.
       * rewrite (add_node_label_new rc _ _ _ _ HI Ha) in Hz. injection Hz as <-. now rewrite Z.eqb_refl.
       * rewrite (add_node_label_old rc _ _ _ _ Ha z' Hne) in Hz. pose proof (Hj z' l' Hz) as Hz'.
         destruct (Z.eqb_spec l l') as [->|_]; [congruence|exact Hz'].
+    + intros Hst. exact (add_node_srcs rc _ _ _ _ HI Ha (Hs Hst)).
 Qed.
 
-Lemma ls_add_edge_core a b s s' D : core_ok P s -> In a D -> ls_add_edge a b s = Some s' ->
-  core_ok P s' /\ ext (ls_g s) (ls_g s') D /\ ls_tri s' = ls_tri s /\ ls_lits s' = ls_lits s /\
+Lemma ls_add_edge_core a b s s' D : core_ok P st s -> In a D -> (st = true -> gate_at (ls_g s) a) ->
+  ls_add_edge a b s = Some s' ->
+  core_ok P st s' /\ ext (ls_g s) (ls_g s') D /\ ls_tri s' = ls_tri s /\ ls_lits s' = ls_lits s /\
   sg_out (ls_g s') a = b :: sg_out (ls_g s) a.
 Proof.
-  intros [HI Hl Hp Hj] Ha H. unfold ls_add_edge in H.
+  intros [HI Hl Hp Hj Hs] Ha Hga H. unfold ls_add_edge in H.
   destruct (add_edge a b (ls_g s)) as [g'|] eqn:E; [|discriminate]. injection H as <-.
   cbn [with_g ls_g ls_tri ls_lits].
   split; [|split; [now apply (add_edge_ext a b _ _ D E)|split; [reflexivity|split; [reflexivity|apply (add_edge_out_same a b _ _ E)]]]].
@@ -162,7 +167,16 @@ Proof.
   - intros l z Hz. rewrite (add_edge_label a b _ _ E). now apply Hl.
   - intros z l Hz. rewrite (add_edge_label a b _ _ E) in Hz. now apply (Hp z).
   - intros z l Hz. rewrite (add_edge_label a b _ _ E) in Hz. now apply (Hj z).
+  - intros Hst. exact (add_edge_srcs a b _ _ E (Hga Hst) (Hs Hst)).
 Qed.
+
+Lemma gate_at_ext g g' D a : ext g g' D -> gate_at g a -> gate_at g' a.
+Proof. intros He [t [Hl Ht]]. exists t. split; [exact (ext_label_some _ _ _ _ _ He Hl)|exact Ht]. Qed.
+
+Lemma gate_and g a : sg_label g a = Some GAnd -> gate_at g a.
+Proof. intros H. now exists GAnd. Qed.
+Lemma gate_or g a : sg_label g a = Some GOr -> gate_at g a.
+Proof. intros H. now exists GOr. Qed.
 
 (* ---------- add_literal_node ---------- *)
 (* where the entries of the triangle table come from *)
@@ -180,10 +194,10 @@ Proof.
   destruct (sg_alive (ls_g s1) o) eqn:E; [|reflexivity]. now rewrite (ext_alive _ _ _ _ He E) in H2.
 Qed.
 
-Lemma add_literal_node_spec f at_ s s' : tables_ok P s -> 1 <= f -> PF f ->
+Lemma add_literal_node_spec f at_ s s' : tables_ok P st s -> 1 <= f -> PF f ->
   sg_label (ls_g s) at_ = Some GAnd ->
   add_literal_node rc f at_ s = Some s' ->
-  tables_ok P s' /\ ext (ls_g s) (ls_g s') [at_] /\ tri_origin s s' /\
+  tables_ok P st s' /\ ext (ls_g s) (ls_g s') [at_] /\ tri_origin s s' /\
   exists o, sg_out (ls_g s') at_ = o :: sg_out (ls_g s) at_ /\ tri_node (ls_g s') f o /\
             (lookup_nat (ls_tri s) f = Some o \/ sg_alive (ls_g s) o = false).
 Proof.
@@ -191,7 +205,7 @@ Proof.
   assert (Haa : sg_alive (ls_g s) at_ = true) by (unfold sg_alive; now rewrite Hat).
   destruct (lookup_nat (ls_tri s) f) as [o|] eqn:E.
   - (* the triangle exists already *)
-    destruct (ls_add_edge_core at_ o s s' [at_] Hc (or_introl eq_refl) H) as [Hc' [He [Htri [_ Ho]]]].
+    destruct (ls_add_edge_core at_ o s s' [at_] Hc (or_introl eq_refl) (fun _ => gate_and _ _ Hat) H) as [Hc' [He [Htri [_ Ho]]]].
     assert (Ht' : tris_ok s').
     { apply (tris_ok_ext s s' [at_] Ht He); [|exact Htri]. intros y [<-|[]]. congruence. }
     split; [split; assumption|]. split; [exact He|].
@@ -200,38 +214,45 @@ Proof.
     apply Ht'. now rewrite Htri.
   - (* a new triangle *)
     destruct (add_node rc GOr (ls_g s)) as [o g1] eqn:Ha.
-    destruct Hc as [HI Hl Hp Hj].
+    destruct Hc as [HI Hl Hp Hj Hsr].
     pose proof (add_node_label_new rc _ _ _ _ HI Ha) as Hlo1.
     pose proof (add_node_no_out rc _ _ _ _ HI Ha) as Hoo1.
     pose proof (add_node_fresh rc _ _ _ _ HI Ha) as Hfresh.
     assert (Hod : sg_alive (ls_g s) o = false) by (unfold sg_alive; now rewrite Hfresh).
     assert (Hne : at_ <> o) by (intros ->; congruence).
     set (s1 := mkLS g1 (ls_lits s) ((f, o) :: ls_tri s)) in H.
-    assert (Hc1 : core_ok P s1).
+    assert (Hc1 : core_ok P st s1).
     { constructor; cbn [s1 ls_g ls_lits ls_tri].
       - apply (add_node_Inv rc _ _ _ _ HI Ha).
       - intros l z Hz. apply (ext_label_some _ _ [] _ _ (add_node_ext rc _ _ _ _ [] HI Ha)). now apply Hl.
       - intros z l Hz. destruct (Nat.eq_dec z o) as [->|Hzo]; [congruence|].
         rewrite (add_node_label_old rc _ _ _ _ Ha z Hzo) in Hz. now apply (Hp z).
       - intros z l Hz. destruct (Nat.eq_dec z o) as [->|Hzo]; [congruence|].
-        rewrite (add_node_label_old rc _ _ _ _ Ha z Hzo) in Hz. now apply (Hj z). }
+        rewrite (add_node_label_old rc _ _ _ _ Ha z Hzo) in Hz. now apply (Hj z).
+      - intros Hst. exact (add_node_srcs rc _ _ _ _ HI Ha (Hsr Hst)). }
     pose proof (add_node_ext rc _ _ _ _ [o; at_] HI Ha) as He01. change g1 with (ls_g s1) in He01, Hlo1, Hoo1.
     destruct (get_lit rc (Z.of_nat f) s1) as [pos s2] eqn:Hpos.
     destruct (get_lit_core (Z.of_nat f) s1 pos s2 [o; at_] Hc1 Hfp Hpos) as [Hc2 [He12 [Hlp2 Htri2]]].
     destruct (get_lit rc (- Z.of_nat f)%Z s2) as [neg s3] eqn:Hneg.
     destruct (get_lit_core (- Z.of_nat f)%Z s2 neg s3 [o; at_] Hc2 Hfn Hneg) as [Hc3 [He23 [Hln3 Htri3]]].
     destruct (ls_add_edge at_ o s3) as [s4|] eqn:E4; [|discriminate].
-    destruct (ls_add_edge_core at_ o s3 s4 [o; at_] Hc3 (or_intror (or_introl eq_refl)) E4) as [Hc4 [He34 [Htri4 [_ Ho4]]]].
+    assert (Hg3 : gate_at (ls_g s3) at_)
+      by exact (gate_at_ext _ _ _ _ He23 (gate_at_ext _ _ _ _ He12 (gate_at_ext _ _ _ _ He01 (gate_and _ _ Hat)))).
+    assert (Hg3o : gate_at (ls_g s3) o)
+      by exact (gate_at_ext _ _ _ _ He23 (gate_at_ext _ _ _ _ He12 (gate_or _ _ Hlo1))).
+    destruct (ls_add_edge_core at_ o s3 s4 [o; at_] Hc3 (or_intror (or_introl eq_refl)) (fun _ => Hg3) E4) as [Hc4 [He34 [Htri4 [_ Ho4]]]].
+    pose proof (gate_at_ext _ _ _ _ He34 Hg3o) as Hg4o.
     destruct (ls_add_edge o pos s4) as [s5|] eqn:E5; [|discriminate].
-    destruct (ls_add_edge_core o pos s4 s5 [o; at_] Hc4 (or_introl eq_refl) E5) as [Hc5 [He45 [Htri5 [_ Ho5]]]].
-    destruct (ls_add_edge_core o neg s5 s' [o; at_] Hc5 (or_introl eq_refl) H) as [Hc6 [He56 [Htri6 [_ Ho6]]]].
+    destruct (ls_add_edge_core o pos s4 s5 [o; at_] Hc4 (or_introl eq_refl) (fun _ => Hg4o) E5) as [Hc5 [He45 [Htri5 [_ Ho5]]]].
+    pose proof (gate_at_ext _ _ _ _ He45 Hg4o) as Hg5o.
+    destruct (ls_add_edge_core o neg s5 s' [o; at_] Hc5 (or_introl eq_refl) (fun _ => Hg5o) H) as [Hc6 [He56 [Htri6 [_ Ho6]]]].
     (* the same steps with the sharper sets of changed nodes *)
     pose proof (add_node_ext rc _ _ _ _ [] HI Ha) as He01'. change g1 with (ls_g s1) in He01'.
     pose proof (get_lit_core (Z.of_nat f) s1 pos s2 [] Hc1 Hfp Hpos) as [_ [He12' _]].
     pose proof (get_lit_core (- Z.of_nat f)%Z s2 neg s3 [] Hc2 Hfn Hneg) as [_ [He23' _]].
-    pose proof (ls_add_edge_core at_ o s3 s4 [at_] Hc3 (or_introl eq_refl) E4) as [_ [He34' _]].
-    pose proof (ls_add_edge_core o pos s4 s5 [o] Hc4 (or_introl eq_refl) E5) as [_ [He45' _]].
-    pose proof (ls_add_edge_core o neg s5 s' [o] Hc5 (or_introl eq_refl) H) as [_ [He56' _]].
+    pose proof (ls_add_edge_core at_ o s3 s4 [at_] Hc3 (or_introl eq_refl) (fun _ => Hg3) E4) as [_ [He34' _]].
+    pose proof (ls_add_edge_core o pos s4 s5 [o] Hc4 (or_introl eq_refl) (fun _ => Hg4o) E5) as [_ [He45' _]].
+    pose proof (ls_add_edge_core o neg s5 s' [o] Hc5 (or_introl eq_refl) (fun _ => Hg5o) H) as [_ [He56' _]].
     pose proof (ext_trans _ _ _ _ He12' He23') as He13'.
     pose proof (ext_trans _ _ _ _ He45' He56') as He46'.
     pose proof (ext_trans _ _ _ _ He34 (ext_trans _ _ _ _ He45 He56)) as He36.
@@ -276,10 +297,10 @@ Definition tri_child (s : lstate) (g' : sgraph) (o : nat) : Prop :=
   (exists f, tri_node g' f o) /\
   ((exists f, lookup_nat (ls_tri s) f = Some o) \/ sg_alive (ls_g s) o = false).
 
-Lemma add_literal_nodes_spec at_ : forall fs s s', tables_ok P s -> Forall (fun f => 1 <= f /\ PF f) fs ->
+Lemma add_literal_nodes_spec at_ : forall fs s s', tables_ok P st s -> Forall (fun f => 1 <= f /\ PF f) fs ->
   sg_label (ls_g s) at_ = Some GAnd ->
   add_literal_nodes rc fs at_ s = Some s' ->
-  tables_ok P s' /\ ext (ls_g s) (ls_g s') [at_] /\ tri_origin s s' /\
+  tables_ok P st s' /\ ext (ls_g s) (ls_g s') [at_] /\ tri_origin s s' /\
   exists tris, sg_out (ls_g s') at_ = tris ++ sg_out (ls_g s) at_ /\
                Forall (tri_child s (ls_g s')) tris.
 Proof.
